@@ -908,6 +908,12 @@ pub assume_specification[ Duration::as_micros ](d: &Duration) -> (r: u128)
     ensures r as nat == dur_nanos(*d) / 1_000;
 pub assume_specification[ Duration::as_secs ](d: &Duration) -> (r: u64)
     ensures r as nat == dur_nanos(*d) / 1_000_000_000;
+pub assume_specification[ Duration::subsec_nanos ](d: &Duration) -> (r: u32)
+    ensures r as nat == dur_nanos(*d) % 1_000_000_000;
+pub assume_specification[ Duration::subsec_micros ](d: &Duration) -> (r: u32)
+    ensures r as nat == (dur_nanos(*d) % 1_000_000_000) / 1_000;
+pub assume_specification[ Duration::subsec_millis ](d: &Duration) -> (r: u32)
+    ensures r as nat == (dur_nanos(*d) % 1_000_000_000) / 1_000_000;
 pub assume_specification[ Duration::is_zero ](d: &Duration) -> (r: bool)
     ensures r == (dur_nanos(*d) == 0);
 #[verifier::external_body]
